@@ -52,7 +52,14 @@ func RegistryDates() []time.Time {
 // a fixed early/late date, or a uniform instant 1950..2049.
 func DrawInstant(t *rapid.T) time.Time {
 	ds := RegistryDates()
-	switch rapid.IntRange(0, 9).Draw(t, "datekind") {
+	switch rapid.IntRange(0, 11).Draw(t, "datekind") {
+	case 10, 11:
+		// calendar edges (after every effective date of today's registry): leap day and its neighbours, month and
+		// year ends, at the first and last second of the day and at noon - where month / year arithmetic rolls over
+		y := rapid.SampledFrom([]int{2024, 2025, 2027, 2028}).Draw(t, "edgeyear")
+		md := rapid.SampledFrom([][2]int{{2, 28}, {2, 29}, {3, 1}, {12, 29}, {12, 30}, {12, 31}, {1, 1}, {1, 31}, {3, 31}, {4, 30}, {8, 31}, {10, 31}, {11, 30}}).Draw(t, "edgeday")
+		hms := rapid.SampledFrom([][3]int{{0, 0, 0}, {23, 59, 59}, {12, 0, 0}}).Draw(t, "edgetime")
+		return time.Date(y, time.Month(md[0]), md[1], hms[0], hms[1], hms[2], 0, time.UTC)
 	case 0:
 		return time.Date(1990, 1, 1, 0, 0, 0, 0, time.UTC)
 	case 1:
